@@ -194,6 +194,9 @@ func cmdRun(args []string) int {
 		for _, st := range s.Steps {
 			if !execStep(w, st) {
 				skipped++
+				if os.Getenv("VERIF_DEBUG") != "" {
+					fmt.Fprintf(os.Stderr, "skipped %+v\n", st)
+				}
 			}
 		}
 		if *doDrain {
@@ -273,6 +276,25 @@ func genSchedule(rng *rand.Rand, family string, depth int) *Schedule {
 			add(Step{A: "Deliver", P: "B"})
 			add(Step{A: "Deliver", P: "A"})
 			text++
+			add(Step{A: "Send", P: "B", T: text})
+			add(Step{A: "Deliver", P: "A"})
+			add(Step{A: "Deliver", P: "B"})
+		}
+		return sc
+	case "fragsweep":
+		// ping-pong with the fragment size swept one by one, so that sizes whose payload
+		// divides the encoded length (empty last piece) and all remainders occur
+		sc.Setup, sc.Fam = "ake", "fifo-data"
+		sc.Frag = map[string]int{}
+		base := 38 + rng.Intn(400)
+		for d := 0; d < depth; d++ {
+			text++
+			add(Step{A: "FragSize", P: "A", Z: base + 2*d})
+			add(Step{A: "Send", P: "A", T: text})
+			add(Step{A: "Deliver", P: "B"})
+			add(Step{A: "Deliver", P: "A"})
+			text++
+			add(Step{A: "FragSize", P: "B", Z: base + 2*d + 1})
 			add(Step{A: "Send", P: "B", T: text})
 			add(Step{A: "Deliver", P: "A"})
 			add(Step{A: "Deliver", P: "B"})
